@@ -1,17 +1,21 @@
 #!/usr/bin/env python3
 """tools/mkpatch.py <out.patch> <repo-relative file> <old> <new> [<file> <old> <new> ...]
 Create a unified diff (against /repo's working tree) replacing the first occurrence of <old> by <new>.
-<old>/<new> may use \\n for newlines."""
+<old>/<new> may use \\n for newlines.  Several edits may name the same file."""
 import difflib, sys
 out = sys.argv[1]
 args = sys.argv[2:]
-text = ""
+orig, cur, order = {}, {}, []
 for i in range(0, len(args), 3):
     f, old, new = args[i], args[i+1].replace("\\n", "\n"), args[i+2].replace("\\n", "\n")
-    a = open("/repo/" + f).read()
-    if old not in a:
+    if f not in orig:
+        orig[f] = cur[f] = open("/repo/" + f).read()
+        order.append(f)
+    if old not in cur[f]:
         sys.exit("pattern not found in %s: %r" % (f, old))
-    b = a.replace(old, new, 1)
-    text += "".join(difflib.unified_diff(a.splitlines(True), b.splitlines(True), "a/" + f, "b/" + f))
+    cur[f] = cur[f].replace(old, new, 1)
+text = ""
+for f in order:
+    text += "".join(difflib.unified_diff(orig[f].splitlines(True), cur[f].splitlines(True), "a/" + f, "b/" + f))
 open(out, "w").write(text)
 print("wrote", out, len(text.splitlines()), "lines")
